@@ -16,6 +16,7 @@ package trustpolicy
 import (
 	"errors"
 	"fmt"
+	"maps"
 	"regexp"
 	"strings"
 
@@ -169,9 +170,11 @@ func (policyDoc *OCIDocument) GetApplicableTrustPolicy(artifactReference string)
 
 // clone returns a pointer to the deep copied [OCITrustPolicy]
 func (t *OCITrustPolicy) clone() *OCITrustPolicy {
+	signatureVerification := t.SignatureVerification
+	signatureVerification.Override = maps.Clone(t.SignatureVerification.Override)
 	return &OCITrustPolicy{
 		Name:                  t.Name,
-		SignatureVerification: t.SignatureVerification,
+		SignatureVerification: signatureVerification,
 		TrustedIdentities:     append([]string(nil), t.TrustedIdentities...),
 		TrustStores:           append([]string(nil), t.TrustStores...),
 		RegistryScopes:        append([]string(nil), t.RegistryScopes...),
